@@ -142,10 +142,12 @@ namespace AIToolbox::POMDP {
                     if ( checkDifferentSmall(sum, 0.0) )
                         rew += model_.getDiscount() * sum * simulate(nextBelief / sum, horizon - 1);
                 }
-            }
-            if ( rew > max ) {
-                max = rew;
-                if ( horizon == maxDepth_ ) maxA_ = a;
+                // Only a fully expanded action can become the new best: for
+                // a pruned one rew is just the immediate reward.
+                if ( rew > max ) {
+                    max = rew;
+                    if ( horizon == maxDepth_ ) maxA_ = a;
+                }
             }
         }
         return max;
@@ -153,7 +155,14 @@ namespace AIToolbox::POMDP {
 
     template <IsModel M>
     double RTBSS<M>::upperBound(const Belief &, const size_t, const unsigned horizon) const {
-        return model_.getDiscount() * maxR_ * horizon;
+        // sum_{t=1..horizon} discount^t * maxR: an upper bound on the
+        // discounted future reward whatever the sign of maxR.
+        double bound = 0.0, d = 1.0;
+        for ( unsigned t = 0; t < horizon; ++t ) {
+            d *= model_.getDiscount();
+            bound += d * maxR_;
+        }
+        return bound;
     }
 
     template <IsModel M>
